@@ -129,7 +129,18 @@ func (p *Path) xfDiv(a, b XF) XF {
 		return XF{exact: smt.ConstIntU(0)}
 	}
 	two := smt.ConstIntU(2)
-	for e := -52; e <= 12; e++ {
+	// quotients >= 1 live in binades e = -52..12; smaller ones (down to 2^-64) below
+	es := []int{}
+	if p.branch(smt.ILe(B, A)) {
+		for e := -52; e <= 12; e++ {
+			es = append(es, e)
+		}
+	} else {
+		for e := -53; e >= -116; e-- {
+			es = append(es, e)
+		}
+	}
+	for _, e := range es {
 		// binade: 2^52 <= (A/B)/2^e < 2^53
 		var lo, hi *smt.Term
 		if e <= 0 {
@@ -158,7 +169,7 @@ func (p *Path) xfDiv(a, b XF) XF {
 		p.assumeOrStop(smt.Implies(smt.Eq(smt.IMul(two, diff), unit), smt.Eq(smt.IMod(k, two), smt.ConstIntU(0))))
 		return XF{k: k, e: e}
 	}
-	p.abortf("Int back end: quotient outside the supported binades [2^0, 2^65)")
+	p.abortf("Int back end: quotient outside the supported binades [2^-64, 2^65)")
 	return XF{}
 }
 
